@@ -177,8 +177,18 @@ class C03(PropBase):
                         d["reject"] = {"n": d["fields"][0]["n"], "v": 0 if d["fields"][0]["t"]["k"] == "int" else ""}
                         if rng.random() < 0.5:
                             d["reject"]["exc"] = "StopIteration"
-        lk = view.lookup()
         mods = [m["name"] for m in world["modules"]]
+        twins = None
+        if len(mods) >= 2:
+            # two recursive classes of one name in two modules, met in one graph: every position gets its own class
+            R0, R1 = {"k": "ref", "m": mods[0], "n": "VwNodeS"}, {"k": "ref", "m": mods[1], "n": "VwNodeS"}
+            opt = lambda r: {"k": "union", "sp": "optional", "a": [r, {"k": "none"}]}  # noqa: E731
+            world["modules"][0]["decls"].append({"d": "dataclass", "n": "VwNodeS", "flags": {}, "fields": [
+                {"n": "value", "t": {"k": "int"}}, {"n": "next", "t": opt(R0), "default": None}]})
+            world["modules"][1]["decls"].append({"d": "dataclass", "n": "VwNodeS", "flags": {}, "fields": [
+                {"n": "value", "t": {"k": "dec"}}, {"n": "next", "t": opt(R1), "default": None}, {"n": "history", "t": {"k": "list", "a": R0}, "factory": "list"}]})
+            twins = R1
+        lk = view.lookup()
         env = self.base_env(rng, fault_free=not sw)
         rejecting = [(m["name"], d) for m in world["modules"] for d in m["decls"] if d.get("reject")]
         pool = []
@@ -219,6 +229,13 @@ class C03(PropBase):
                     if txt is not None:
                         x = hist.carry(txt, rng.choice(["str", "bytes"]))
                 steps.append({"op": "unmarshal", "t": t, "mod": rng.choice(mods), "x": x, "f12": ["member-rejected:" + d["reject"].get("exc", "ValueError")], "clean": None})
+                continue
+            if twins is not None and 0.86 < r <= 0.90:
+                legacy = {"$dict": [["value", "10"], ["next", {"$dict": [["value", "20"], ["next", {"$dict": [["value", 30]]}]]}]]}
+                cur = {"$dict": [["value", "1.5"], ["next", {"$dict": [["value", "2"], ["history", {"$list": [copy.deepcopy(legacy)]}]]}], ["history", {"$list": [legacy, {"$dict": [["value", 7]]}]}]]}
+                steps.append({"op": "unmarshal", "t": rng.choice([twins, {"k": "list", "a": twins}]), "mod": rng.choice(mods), "x": cur, "f12": ["same-name-classes-in-one-graph"], "clean": None})
+                if steps[-1]["t"]["k"] == "list":
+                    steps[-1]["x"] = {"$list": [cur]}
                 continue
             if r > 0.94:
                 # a one-shot iterator as the input of a collection or mapping target: every element it yields
